@@ -1,1 +1,163 @@
-pub mod placeholder {}
+//! Protocol tables and tiny independent implementations of framing / handshake messages,
+//! written from the erl_dist_protocol documentation (OTP 26/27).
+
+/// Control message table: (name, tag, arity including the tag, field names in wire order).
+/// SPAWN_REQUEST's ArgList travels as the payload, not in the control tuple.
+pub const CONTROL_TABLE: &[(&str, u8, usize, &[&str])] = &[
+    ("LINK", 1, 3, &["FromPid", "ToPid"]),
+    ("SEND", 2, 3, &["Unused", "ToPid"]),
+    ("EXIT", 3, 4, &["FromPid", "ToPid", "Reason"]),
+    ("UNLINK", 4, 3, &["FromPid", "ToPid"]),
+    ("NODE_LINK", 5, 1, &[]),
+    ("REG_SEND", 6, 4, &["FromPid", "Unused", "ToName"]),
+    ("GROUP_LEADER", 7, 3, &["FromPid", "ToPid"]),
+    ("EXIT2", 8, 4, &["FromPid", "ToPid", "Reason"]),
+    ("SEND_TT", 12, 4, &["Unused", "ToPid", "TraceToken"]),
+    ("EXIT_TT", 13, 5, &["FromPid", "ToPid", "TraceToken", "Reason"]),
+    ("REG_SEND_TT", 16, 5, &["FromPid", "Unused", "ToName", "TraceToken"]),
+    ("EXIT2_TT", 18, 5, &["FromPid", "ToPid", "TraceToken", "Reason"]),
+    ("MONITOR_P", 19, 4, &["FromPid", "ToProc", "Ref"]),
+    ("DEMONITOR_P", 20, 4, &["FromPid", "ToProc", "Ref"]),
+    ("MONITOR_P_EXIT", 21, 5, &["FromProc", "ToPid", "Ref", "Reason"]),
+    ("SEND_SENDER", 22, 3, &["FromPid", "ToPid"]),
+    ("SEND_SENDER_TT", 23, 4, &["FromPid", "ToPid", "TraceToken"]),
+    ("PAYLOAD_EXIT", 24, 3, &["FromPid", "ToPid"]),
+    ("PAYLOAD_EXIT_TT", 25, 4, &["FromPid", "ToPid", "TraceToken"]),
+    ("PAYLOAD_EXIT2", 26, 3, &["FromPid", "ToPid"]),
+    ("PAYLOAD_EXIT2_TT", 27, 4, &["FromPid", "ToPid", "TraceToken"]),
+    ("PAYLOAD_MONITOR_P_EXIT", 28, 4, &["FromProc", "ToPid", "Ref"]),
+    ("SPAWN_REQUEST", 29, 6, &["ReqId", "From", "GroupLeader", "MFA", "OptList"]),
+    ("SPAWN_REQUEST_TT", 30, 7, &["ReqId", "From", "GroupLeader", "MFA", "OptList", "TraceToken"]),
+    ("SPAWN_REPLY", 31, 5, &["ReqId", "To", "Flags", "Result"]),
+    ("SPAWN_REPLY_TT", 32, 6, &["ReqId", "To", "Flags", "Result", "TraceToken"]),
+    ("ALIAS_SEND", 33, 3, &["FromPid", "Alias"]),
+    ("ALIAS_SEND_TT", 34, 4, &["FromPid", "Alias", "TraceToken"]),
+    ("UNLINK_ID", 35, 4, &["Id", "FromPid", "ToPid"]),
+    ("UNLINK_ID_ACK", 36, 4, &["Id", "FromPid", "ToPid"]),
+];
+
+pub fn control_row(tag: u8) -> Option<&'static (&'static str, u8, usize, &'static [&'static str])> {
+    CONTROL_TABLE.iter().find(|r| r.1 == tag)
+}
+
+// ---- framing ---------------------------------------------------------------------------------
+
+pub fn frame2(payload: &[u8]) -> Vec<u8> {
+    let mut o = (payload.len() as u16).to_be_bytes().to_vec();
+    o.extend_from_slice(payload);
+    o
+}
+
+pub fn frame4(payload: &[u8]) -> Vec<u8> {
+    let mut o = (payload.len() as u32).to_be_bytes().to_vec();
+    o.extend_from_slice(payload);
+    o
+}
+
+/// Independent incremental deframer.
+#[derive(Default)]
+pub struct Deframer {
+    pub buf: Vec<u8>,
+}
+
+impl Deframer {
+    pub fn push(&mut self, data: &[u8]) {
+        self.buf.extend_from_slice(data);
+    }
+    /// next complete frame with an n-byte (2 or 4) length prefix
+    pub fn next(&mut self, prefix: usize) -> Option<Vec<u8>> {
+        if self.buf.len() < prefix {
+            return None;
+        }
+        let len = if prefix == 2 {
+            u16::from_be_bytes([self.buf[0], self.buf[1]]) as usize
+        } else {
+            u32::from_be_bytes([self.buf[0], self.buf[1], self.buf[2], self.buf[3]]) as usize
+        };
+        if self.buf.len() < prefix + len {
+            return None;
+        }
+        let f = self.buf[prefix..prefix + len].to_vec();
+        self.buf.drain(..prefix + len);
+        Some(f)
+    }
+}
+
+// ---- handshake messages (initiator = library, responder = scripted peer) -----------------------
+
+#[derive(Debug, Clone, PartialEq, Eq)]
+pub enum SendName {
+    /// 'n' Version(2)=5 Flags(4) Name
+    Old { version: u16, flags: u32, name: Vec<u8> },
+    /// 'N' Flags(8) Creation(4) NameLen(2) Name
+    New { flags: u64, creation: u32, name: Vec<u8> },
+}
+
+pub fn parse_send_name(p: &[u8]) -> Result<SendName, String> {
+    match p.first() {
+        Some(b'n') => {
+            if p.len() < 7 {
+                return Err("short 'n'".into());
+            }
+            Ok(SendName::Old {
+                version: u16::from_be_bytes([p[1], p[2]]),
+                flags: u32::from_be_bytes([p[3], p[4], p[5], p[6]]),
+                name: p[7..].to_vec(),
+            })
+        }
+        Some(b'N') => {
+            if p.len() < 15 {
+                return Err("short 'N'".into());
+            }
+            let flags = u64::from_be_bytes(p[1..9].try_into().unwrap());
+            let creation = u32::from_be_bytes(p[9..13].try_into().unwrap());
+            let nlen = u16::from_be_bytes([p[13], p[14]]) as usize;
+            if p.len() != 15 + nlen {
+                return Err(format!("'N' name length {} but {} bytes follow", nlen, p.len() - 15));
+            }
+            Ok(SendName::New { flags, creation, name: p[15..].to_vec() })
+        }
+        other => Err(format!("send_name tag {:?}", other)),
+    }
+}
+
+pub fn status(s: &str) -> Vec<u8> {
+    let mut o = vec![b's'];
+    o.extend_from_slice(s.as_bytes());
+    o
+}
+
+/// new-style challenge: 'N' Flags(8) Challenge(4) Creation(4) NameLen(2) Name
+pub fn challenge_new(flags: u64, challenge: u32, creation: u32, name: &[u8]) -> Vec<u8> {
+    let mut o = vec![b'N'];
+    o.extend_from_slice(&flags.to_be_bytes());
+    o.extend_from_slice(&challenge.to_be_bytes());
+    o.extend_from_slice(&creation.to_be_bytes());
+    o.extend_from_slice(&(name.len() as u16).to_be_bytes());
+    o.extend_from_slice(name);
+    o
+}
+
+/// complement: 'c' FlagsHigh(4) Creation(4)
+pub fn parse_complement(p: &[u8]) -> Result<(u32, u32), String> {
+    if p.len() != 9 || p[0] != b'c' {
+        return Err(format!("bad complement message ({} bytes, tag {:?})", p.len(), p.first()));
+    }
+    Ok((u32::from_be_bytes(p[1..5].try_into().unwrap()), u32::from_be_bytes(p[5..9].try_into().unwrap())))
+}
+
+/// reply: 'r' Challenge(4) Digest(16)
+pub fn parse_reply(p: &[u8]) -> Result<(u32, [u8; 16]), String> {
+    if p.len() != 21 || p[0] != b'r' {
+        return Err(format!("bad challenge reply ({} bytes, tag {:?})", p.len(), p.first()));
+    }
+    let mut d = [0u8; 16];
+    d.copy_from_slice(&p[5..21]);
+    Ok((u32::from_be_bytes(p[1..5].try_into().unwrap()), d))
+}
+
+pub fn ack(digest: &[u8; 16]) -> Vec<u8> {
+    let mut o = vec![b'a'];
+    o.extend_from_slice(digest);
+    o
+}
